@@ -153,11 +153,21 @@ func runLock(orig, pred sx.Tree) sx.Tree {
 					go h.complete(it, o)
 				}
 			case 4, 5:
-				ack := make(chan struct{})
-				select {
-				case r.srcCmd <- srcCmd{kind: int(c.At(0).Int()), ack: ack}:
-					<-ack
-				case <-time.After(2 * time.Second):
+				if c.At(0).Int() == 4 && len(pred.At(2).Kids)%2 == 1 {
+					// end the run the way an application does: Executor.Shutdown() asks the source to stop
+					done := ex.Shutdown()
+					go func() { <-done }()
+					dl := time.Now().Add(2 * time.Second)
+					for time.Now().Before(dl) && !r.sourceEnded() {
+						time.Sleep(200 * time.Microsecond)
+					}
+				} else {
+					ack := make(chan struct{})
+					select {
+					case r.srcCmd <- srcCmd{kind: int(c.At(0).Int()), ack: ack}:
+						<-ack
+					case <-time.After(2 * time.Second):
+					}
 				}
 				if c.At(0).Int() == 4 {
 					srcSt = 2
@@ -381,4 +391,11 @@ func runFree(in sx.Tree) sx.Tree {
 		ks = append(ks, sx.Ints(recv, proc, filt, fail, disc, bufferFull(c.Config.ID)))
 	}
 	return sx.T(netd, sx.T(tr...), sx.T(ks...), sx.T(sx.L(stallOK), sx.L(cut), sx.T(stallInfo...)))
+}
+
+// sourceEnded reports whether some incarnation's Start has returned nil.
+func (r *rt) sourceEnded() bool {
+	r.mu.Lock()
+	defer r.mu.Unlock()
+	return r.srcNil
 }
